@@ -225,7 +225,61 @@ SPECIAL = {
     'url-quote': lambda v: urllib.parse.quote(str(v)),
     'sql-quote': lambda v: F['sql_quote'](v),
     'multi-line': lambda v: F['newline_to_br'](str(v)),
+    'comma-numeric': lambda v: F['thousands_commas'](str(v)),
+    'url-quote-plus': lambda v: urllib.parse.quote_plus(str(v)),
+    'url-unquote': lambda v: urllib.parse.unquote(str(v)),
+    'url-unquote-plus': lambda v: urllib.parse.unquote_plus(str(v)),
 }
+
+# values that are equal (and hash alike) but are different values with
+# different texts: the pipeline is a function of the value shown, whatever
+# equal value went through the same format before
+TWINS = [(1234567, 1234567.0), (2500.0, 2500), (0, -0.0), (1, True),
+         (1000000, 1e6), (0.0, False), (-1234567, -1234567.0), (3, 3.0)]
+TWIN_OPTS = [{'fmt': 'comma-numeric'}, {'thousands_commas': None}, {},
+             {'fmt': 'whole-dollars'}, {'fmt': 'dollars-and-cents'},
+             {'fmt': '%s'}, {'fmt': 'url-quote'}, {'fmt': 'html-quote'},
+             {'html_quote': None}, {'fmt': 'sql-quote'}, {'size': '20'},
+             {'fmt': 'comma-numeric', 'size': '9', 'etc': '~'},
+             {'fmt': 'url-quote-plus'}, {'sql_quote': None},
+             {'url_quote': None}, {'null': 'NULL'},
+             {'fmt': 'collection-length', 'null': ''}, {'spacify': None}]
+
+
+def twin_cases():
+    for opts in TWIN_OPTS:
+        for a, b in TWINS:
+            for first, second in ((a, b), (b, a)):
+                yield dict(twin=True, opts=opts,
+                           values=[[type(first).__name__, first],
+                                   [type(second).__name__, second]])
+
+
+def check_twins(case):
+    order, _ = infer_order()
+    outs = []
+    for tv in case['values']:
+        v = {'int': int, 'float': float, 'bool': lambda x: bool(x)}[
+            tv[0]](tv[1])
+        sub = dict(value=['int', v], opts=case['opts'], perm1=[], perm2=[],
+                   cfmt=None)
+        try:
+            got = ('ok', render_opts(written(case['opts'], None), dict(x=v)))
+        except Exception as e:
+            got = ('exc', type(e).__name__)
+        try:
+            exp = expected(sub, order)
+        except Exception:
+            continue
+        outs.append((v, got, exp))
+    for v, got, exp in outs:
+        if got != ('ok', exp):
+            return ('pipeline:depends-on-earlier-equal-value',
+                    '%r rendered one after the other with %r: x=%r (%s) '
+                    'gave %r, expected %r' % (
+                        [t[1] for t in case['values']], case['opts'], v,
+                        type(v).__name__, got, exp))
+    return None
 
 
 def _try(f):
@@ -456,7 +510,9 @@ def strategy():
         fmt=st.sampled_from(['upper', 'lower', 'shout', 'number', 'strip',
                              'title', 'whole-dollars', 'dollars-and-cents',
                              'collection-length', 'html-quote', 'url-quote',
-                             'sql-quote', 'multi-line', '%s!', '%05d',
+                             'sql-quote', 'multi-line', 'comma-numeric',
+                             'url-unquote', 'url-unquote-plus',
+                             'url-quote-plus', '%s!', '%05d',
                              '%.2f', '[%s]', '%10s|'])))
 
     def mk(v, m, e, p1, p2, cf):
@@ -493,6 +549,7 @@ def nontrivial(case):
 def plan(tier, seed):
     shards = [dict(kind='subsets', r=r) for r in range(0, 13)]
     shards.append(dict(kind='order'))
+    shards.append(dict(kind='twins'))
     n = 2000 if tier == 'quick' else 15000
     for i in range(12):
         shards.append(dict(kind='random', seed=seed * 1000 + i, n=n))
@@ -512,6 +569,14 @@ def run_shard(shard):
             acc.fail(b, ['order-inference', b], msg)
         return acc.result()
     if order is None:
+        return acc.result()
+    if kind == 'twins':
+        for case in twin_cases():
+            bad = check_twins(case)
+            acc.case(case, True, klass='equal-values-of-different-type',
+                     distinct_by_construction=True)
+            if bad:
+                acc.fail(bad[0], case, bad[1])
         return acc.result()
     if kind == 'subsets':
         vals = PROBES[:3]
@@ -567,6 +632,8 @@ def run_shard(shard):
 
 def replay(case):
     order, problems = infer_order()
+    if isinstance(case, dict) and case.get('twin'):
+        return check_twins(case)
     if isinstance(case, list):
         if case[0] == 'order-inference':
             return problems[0] if problems else None
